@@ -47,6 +47,12 @@ def run_c16(ck, ctx):
                  ('text', b'this is not ALICE data at all, just a text file\n' * 20, ['check', 'all', 'its'], 1),
                  ('empty', b'', ['check', 'sanity', '-E', str(N)], 1),
                  ('view_clean', G.encode(clean), ['view', 'rdh', '-E', str(N)], 0)]
+        # a failed custom check on otherwise clean data counts as a reported error
+        ctoml = os.path.join(wd, 'cdps.toml'); open(ctoml, 'w').write('cdps = %d\n' % (len(clean) + 1))
+        otoml = os.path.join(wd, 'cdps_ok.toml'); open(otoml, 'w').write('cdps = %d\n' % len(clean))
+        cases += [('custom_fail_E', G.encode(clean), ['check', 'sanity', '-c', ctoml, '-E', str(N)], N),
+                  ('custom_fail_E_mute', G.encode(clean), ['check', 'all', 'its', '-c', ctoml, '-E', str(N), '-m'], N),
+                  ('custom_ok_E', G.encode(clean), ['check', 'sanity', '-c', otoml, '-E', str(N)], 0)]
         for name, data, args, want in cases:
             r = L.run_cli(args, data)
             ck.case((rep, name)); ck.count('exit_' + name)
@@ -99,8 +105,10 @@ def run_c16(ck, ctx):
             ck.violation('mute', {'what': '--mute-errors changes more than what is displayed', 'shown': L.stderr_errors(m.stderr)[:4], 'exit': m.exit, 'input_hex': data.hex()})
         # code filter: exactly the messages with the listed codes (incl. codes that are prefixes of others)
         present = sorted(set(c[1:] for c in allcodes if c.startswith('E')))
-        trial_lists = [[R.choice(present)] if present else ['10'], ['4'], ['44'], ['9'], ['99'], ['1'], present[:2] + ['7'], ['40', '4', '44'], ['9999']]
-        for codes in trial_lists[: (4 if tier == 'quick' else 9)]:
+        shuffled = list(present); R.shuffle(shuffled)
+        trial_lists = [[R.choice(present)] if present else ['10'], sorted(present, reverse=True)[:5] or ['60', '10'], shuffled[:6] or ['11', '10'], ['4'], ['44'], ['9'],
+                       ['99'], ['1'], present[:2] + ['7'], ['40', '4', '44'], ['9999']]
+        for codes in trial_lists[: (5 if tier == 'quick' else 11)]:
             w = L.run_cli(['check', 'all', 'its', '-w'] + codes, data)
             got = [e for e in L.stderr_errors(w.stderr) if e[1] != 'FATAL']
             want = [(e[0], e[1]) for e in base.errors if e[1].startswith('E') and e[1][1:] in codes]
@@ -738,6 +746,47 @@ def run_c17(ck, ctx):
         p = subprocess.Popen([b, f] + args, stdout=subprocess.DEVNULL, stderr=subprocess.PIPE, env=env)
         ck.case((what, rep))
         finish(p, t0, what + ': early stop', dict(args=args))
+    # ---- early stop while the bounded queues are full: a long input (more packets than the queues hold), the
+    # consumer of stdout stalls so that analysis falls behind the reader, then the stop arrives
+    npk = 40000 if tier == 'quick' else 200000
+    hb = bytearray()
+    for i in range(npk):
+        f = dict(G.RDH_DEFAULT); f.update(link=i % 2 * 3, fee=0x1000 | (i % 2 * 3), orbit=10 + i // 4, page=(i // 2) % 2, stop=(i // 2) % 2, size=64, off=64, pkt=i & 0xFF)
+        if i == npk // 2: f['res0'] = 1
+        hb += G.rdh_bytes(f)
+    huge = os.path.join(wd, 'huge.raw'); open(huge, 'wb').write(hb)
+    for rep in range(3 if tier == 'quick' else 12):
+        b = bins[rep % len(bins)]
+        env = dict(os.environ, FASTPASTA_VERIF_SCHED=str(rep + 1)) if b == L.HOOKBIN else None
+        if rep % 3 == 2:
+            p = subprocess.Popen([b, huge, 'check', 'all', '-e', '1'], stdout=subprocess.DEVNULL, stderr=subprocess.PIPE, env=env)
+            ck.case(('full_queues_cap', rep))
+            finish(p, time.time(), 'cap: error cap reached in mid-stream of a long input', dict(args=['check', 'all', '-e', '1'], packets=npk))
+            continue
+        p = subprocess.Popen([b, huge, 'view', 'rdh'], stdout=subprocess.PIPE, stderr=subprocess.PIPE, env=env)
+        errbuf = []
+        th = threading.Thread(target=lambda: errbuf.append(p.stderr.read()), daemon=True); th.start()
+        time.sleep(1.0)                                  # stdout is not read: the view blocks, the queues fill up
+        p.send_signal(signal.SIGINT if rep % 2 else signal.SIGTERM)
+        ck.case(('full_queues_signal', rep))
+        tend = time.time() + BOUND
+        try:
+            while time.time() < tend:
+                r, _, _ = select.select([p.stdout], [], [], 0.5)
+                if r and not os.read(p.stdout.fileno(), 1 << 16): break
+            rc = p.wait(timeout=max(0.1, tend - time.time()))
+        except subprocess.TimeoutExpired:
+            rc = None
+        if rc is None and p.poll() is None:
+            p.kill(); p.wait()
+            ck.violation('hang', {'what': 'signal while the queues are full (stalled stdout consumer): the process did not end within %.0f s (deadlock)' % BOUND,
+                                  'args': ['view', 'rdh'], 'packets': npk, 'binary': 'hook' if b == L.HOOKBIN else 'release'})
+            continue
+        th.join(5)
+        errs = L.ANSI.sub('', (errbuf[0] if errbuf else b'').decode('utf-8', 'replace'))
+        ck.count('stop_full_queues')
+        if 'panicked' in errs or p.returncode not in (0, 1, -2, -15):
+            ck.violation('panic', {'what': 'signal with full queues: panic / abnormal exit', 'exit': p.returncode, 'stderr': errs[-400:]})
     shutil.rmtree(wd, ignore_errors=True)
     ck.sample(dict(stops=['SIGINT/SIGTERM at random instants', 'stdout closed after k bytes', 'error cap', 'fatal framing error in mid-stream'], binaries=len(bins)))
 
